@@ -1,0 +1,48 @@
+//go:build verif
+
+// Contracts for the deductive verifier in /verif (comment-only file).
+// Property C14, the batch calls of the CAS service: every entry of a batch is
+// answered on its own, in request order; an upload reaches the backend only
+// with a digest that was parsed from the entry and a buffer that validated
+// the entry's data against it (or reports the mismatch), an entry whose digest
+// does not parse never reaches the backend; a batch read asks the backend for
+// exactly the digests of the request, in order, and refuses batches whose
+// sizes add up to more than the message limit before reading anything;
+// FindMissingBlobs passes on every digest of the request and surfaces the
+// backend's failure.
+package grpcservers
+
+//@ func (*contentAddressableStorageServer).BatchUpdateBlobs
+//@   requires s.contentAddressableStorage != nil && in != nil
+//@   ensures [one-answer-per-entry] result1 == nil && len(in.Requests) > 0 ==> result0 != nil && len(result0.Responses) == len(in.Requests)
+//@   ensures [at-most-one-upload-per-entry] baCalls(s.contentAddressableStorage) <= old(baCalls(s.contentAddressableStorage)) + len(in.Requests)
+//@   callassume NewCASBufferFromByteSlice arg2.dataIntegrityCallback != nil
+//@   callrequires Put [uploads-only-parsed-digests-with-validated-data] err == nil
+//@         && (typeis(arg3, "*buffer.validatedByteSliceBuffer") ==>
+//@             (cmpOK == 1 && dgHash(cmpA) == 1 && sumCount(cmpB) == len(request.Data) && len(request.Data) == dgSize(arg2.value)))
+//@   loop 0 invariant -1 <= rangeindex && rangeindex < len(in.Requests) && unchanged(s.contentAddressableStorage)
+//@   loop 0 invariant response != nil && len(response.Responses) == rangeindex + 1
+//@   loop 0 invariant baCalls(s.contentAddressableStorage) <= old(baCalls(s.contentAddressableStorage)) + rangeindex + 1
+
+//@ func (*contentAddressableStorageServer).BatchReadBlobs
+//@   requires s.contentAddressableStorage != nil && in != nil && s.maximumMessageSizeBytes >= 0
+//@   ensures [one-answer-per-entry] result1 == nil && len(in.Digests) > 0 ==> result0 != nil && len(result0.Responses) == len(in.Digests)
+//@   ensures [nothing-read-when-refused] result1 != nil ==> baCalls(s.contentAddressableStorage) == old(baCalls(s.contentAddressableStorage))
+//@   ensures [one-read-per-entry] result1 == nil ==> baCalls(s.contentAddressableStorage) == old(baCalls(s.contentAddressableStorage)) + len(in.Digests)
+//@   callrequires Get [reads-the-requested-digests-in-order] 0 <= rangeindex1 && rangeindex1 < len(digests) && arg2.value == digests[rangeindex1].value
+//@   loop 0 invariant -1 <= rangeindex0 && rangeindex0 < len(in.Digests) && len(digests) == rangeindex0 + 1 && unchanged(s.contentAddressableStorage)
+//@   loop 0 invariant [within-the-message-limit] 0 <= bytesRemaining && bytesRemaining <= s.maximumMessageSizeBytes && unchanged(s.maximumMessageSizeBytes)
+//@   loop 0 invariant unchanged(baCalls(s.contentAddressableStorage))
+//@   loop 1 invariant -1 <= rangeindex1 && rangeindex1 < len(in.Digests) && len(digests) == len(in.Digests) && unchanged(s.contentAddressableStorage)
+//@   loop 1 invariant response != nil && len(response.Responses) == rangeindex1 + 1
+//@   loop 1 invariant baCalls(s.contentAddressableStorage) == old(baCalls(s.contentAddressableStorage)) + rangeindex1 + 1
+
+//@ func (*contentAddressableStorageServer).FindMissingBlobs
+//@   requires s.contentAddressableStorage != nil && in != nil
+//@   ensures [backends-failure-surfaced] baCalls(s.contentAddressableStorage) != old(baCalls(s.contentAddressableStorage)) && fmErr(s.contentAddressableStorage) != nil
+//@         ==> result1 == fmErr(s.contentAddressableStorage)
+//@   ensures [every-digest-passed-on] baCalls(s.contentAddressableStorage) != old(baCalls(s.contentAddressableStorage))
+//@         ==> sbAdds(inDigests.digests) == len(in.BlobDigests)
+//@   loop 0 invariant -1 <= rangeindex0 && rangeindex0 < len(in.BlobDigests) && sbAdds(inDigests.digests) == rangeindex0 + 1
+//@   loop 0 invariant unchanged(baCalls(s.contentAddressableStorage)) && unchanged(s.contentAddressableStorage)
+//@   loop 1 invariant -1 <= rangeindex1
